@@ -2,9 +2,9 @@
    C18/Proofs*.v and followed by Print Assumptions.  The models are C18/Model.v
    (Fourier part) and C18/ModelW.v (wavelet bookkeeping), tied to /repo by the
    correspondence shards (C18/Corr.v).  Carrier: R; [cx] = R * R. *)
-From Coq Require Import Reals List Bool Arith.
+From Coq Require Import QArith Qreals Reals List Bool Arith.
 From Verif Require Import Base.Num Base.Vec Lib.Axis C18.Model C18.ModelW C18.ModelH C18.ProofsGrid C18.ProofsDFT C18.ProofsCx
-  C18.ProofsAxis C18.ProofsFT C18.ProofsTrue C18.ProofsHC C18.ProofsTrueHC C18.ProofsSum C18.ProofsW C18.ProofsH C18.ProofsHN.
+  C18.ProofsAxis C18.ProofsFT C18.ProofsTrue C18.ProofsHC C18.ProofsTrueHC C18.ProofsSum C18.ProofsW C18.ProofsH C18.ProofsHN C18.ProofsHI Base.Transfer Gen.FtFormulas C18.Transfer.
 Import ListNotations.
 Local Open Scope R_scope.
 
@@ -182,9 +182,8 @@ Print Assumptions rfft_inverse_recovers_input.
 
 (* H2: half-complex N-d: DiscreteFourierTransformInverse(halfcomplex) o DiscreteFourierTransform(halfcomplex)
    = id on real arrays of every shape (even and odd last transformed axis), every axes list.
-   [This is the transform as specified (irfftn WITH the target length); the current numpy
-   code path omits that length for odd sizes: finding dft-inverse-hc-odd-numpy, modelled by
-   dft_inverse_status.] *)
+   [irfftn WITH the target length: the numpy code path passes it since fix 021ba38; before, odd
+   sizes raised.  A regression breaks the dft correspondence (odd sizes are generated).] *)
 Theorem dft_halfcomplex_inverse_recovers_input : forall (shape axes : list nat) (x : list (@cx R)),
   axes <> [] -> (forall ax, In ax axes -> (ax < length shape)%nat) ->
   (1 <= nth (last_axis axes) shape 0%nat)%nat -> length x = prodn shape -> Forall is_real x ->
@@ -208,30 +207,20 @@ Proof. exact ft_roundtrip_real_true. Qed.
 Print Assumptions ft_real_inverse_recovers_input_partial.
 
 (* The FULL statement "for every half-complex option and shift choice the inverse recovers the
-   input" is FALSE of the faithful model: the code accepts half-complex with an unshifted
-   non-last axis at construction (only the last axis is checked) and then fails -- findings
-   ft-halfcomplex-unshifted-axis / ft-real-unshifted-pyfftw-inverse.  What the model (and the
-   code, by the correspondence) does on such a configuration, with the variant switches set to
-   "defect present" (first arguments; the harness measures them on every run): *)
+   input" is still FALSE of the faithful model: the code accepts half-complex with an unshifted
+   non-last axis at construction (only the last axis is checked) and then fails -- open finding
+   ft-halfcomplex-unshifted-axis.  What the model (and the code, by the correspondence) does on
+   such a configuration, with the variant switch set to "defect present" (first argument of
+   ft_init_status; the harness measures it on every run): *)
 Theorem ft_halfcomplex_unshifted_refuted :
   exists (shifts : list bool),
     @ft_init_status R _ false [mk_axis 0 3 4; mk_axis 0 4 5] [0; 1]%nat shifts true false = SOk
-    /\ ft_inverse_status true false true true shifts = STypeErr      (* numpy: inverse raises *)
-    /\ ft_forward_status true true true shifts = SOtherErr.     (* pyfftw: forward raises *)
+    /\ ft_inverse_status true true shifts = STypeErr          (* inverse raises on both back-ends *)
+    /\ ft_forward_status true true true shifts = SOtherErr.   (* pyfftw: forward raises *)
 Proof. exact ft_hc_unshifted_status. Qed.
-Theorem ft_real_unshifted_pyfftw_refuted :
-  exists (shifts : list bool),
-    ft_inverse_status true true true false shifts = STypeErr /\ ft_inverse_status true false true false shifts = SOk.
-Proof. exact ft_real_unshifted_status. Qed.
-(* DFT: the inverse onto a real space without half-complex is rejected by pyfftw, and the numpy
-   half-complex inverse rejects odd lengths (findings dft-inverse-real-nonhc-pyfftw,
-   dft-inverse-hc-odd-numpy) *)
-Theorem dft_inverse_current_code_refuted :
-  dft_inverse_status true true true true false true [4]%nat [0]%nat = SValueErr
-  /\ dft_inverse_status true true true true false false [4]%nat [0]%nat = SValueErr
-  /\ dft_inverse_status true true false true true false [5]%nat [0]%nat = SValueErr
-  /\ dft_inverse_status true true false true true false [4]%nat [0]%nat = SOk.
-Proof. exact dft_inverse_status_examples. Qed.
+(* The earlier refutations about the inverse DFT onto real spaces (pyfftw), odd half-complex
+   lengths (numpy) and the real unshifted pyfftw inverse FT are gone: those defects were repaired
+   in /repo and D3 / H2 / F2 are the live statements for them. *)
 
 (* ------------------------------------------------------------------ *)
 (* F3: PHASE CORRECTNESS (what a round trip cannot see: a consistently wrong phase cancels
@@ -355,3 +344,50 @@ Theorem haar_nd_on_1d_is_haar : forall (L : nat) (x : list R),
 Proof. exact (haar_nd_1d (sqrt 2)). Qed.
 Example even_chain_nd_example : even_chain_nd 2 [4; 3; 8]%nat [2; 0]%nat.
 Proof. exact even_chain_nd_example_holds. Qed.
+
+(* (e) the N-d inverse (model ihaar_nd, compared with W.inverse by the correspondence) IS a right
+       inverse of W on every coefficient vector -- any dimension, axes list and level count (even
+       chains) -- so (c), (d) hold without any premise about the inverse: *)
+Theorem haar_nd_inverse_is_right_inverse : forall (axes : list nat) (L : nat) (shape : list nat) (c : list R),
+  even_chain_nd L shape axes -> length c = haar_nd_size L shape axes ->
+  length (ihaar_nd (sqrt 2) L shape axes c) = prodn shape /\
+  haar_nd (sqrt 2) L shape axes (ihaar_nd (sqrt 2) L shape axes c) = c.
+Proof. exact ihaar_nd_right_inverse_sqrt2. Qed.
+Print Assumptions haar_nd_inverse_is_right_inverse.
+
+Theorem wavelet_nd_adjoint_identity : forall (L : nat) (shape axes : list nat) (sides : list R) (x c : list R),
+  even_chain_nd L shape axes -> cell_volume sides <> 0 ->
+  length x = prodn shape -> length c = haar_nd_size L shape axes ->
+  dot (haar_nd (sqrt 2) L shape axes x) c
+  = inner_dom sides x (vscal (1 / cell_volume sides) (ihaar_nd (sqrt 2) L shape axes c)).
+Proof. exact haar_nd_weighted_adjoint_full. Qed.
+Print Assumptions wavelet_nd_adjoint_identity.
+
+Theorem wavelet_nd_adjoint_scale_is_full_cell_volume : forall (L : nat) (shape axes : list nat)
+    (sides : list R) (s : R) (x c : list R),
+  even_chain_nd L shape axes -> cell_volume sides <> 0 ->
+  length x = prodn shape -> length c = haar_nd_size L shape axes ->
+  dot (haar_nd (sqrt 2) L shape axes x) c <> 0 ->
+  dot (haar_nd (sqrt 2) L shape axes x) c = inner_dom sides x (vscal s (ihaar_nd (sqrt 2) L shape axes c)) ->
+  s = 1 / cell_volume sides.
+Proof. exact haar_nd_adjoint_scale_full. Qed.
+
+(* ------------------------------------------------------------------ *)
+(* T: TRANSFER.  The grid / frequency part of the model that the correspondence shards execute at Q
+   (exact rationals) is the rational restriction of the model the theorems above are about at R:
+   Q2R commutes with reciprocal_grid, realspace_grid (under the guard the code needs as well) and the
+   post-processing frequencies, all built from the regenerated formulas. *)
+Theorem reciprocal_grid_transfer : forall (pi : Q) (a : @axis Q) (tr : option bool) (half : bool),
+  (1 <= a_n a)%nat ->
+  axR (recip_axis pi a tr half) = recip_axis (Q2R pi) (axR a) tr half.
+Proof. exact recip_axis_transfer. Qed.
+Print Assumptions reciprocal_grid_transfer.
+Theorem realspace_grid_transfer : forall (pi : Q) (r : @axis Q) (x0 : Q) (tr : bool) (half : option bool),
+  (tr = true -> ~ (nmul (g_of_nat (real_n (a_n r) half)) (stride r) == 0)%Q) ->
+  axR (real_axis pi r x0 tr half) = real_axis (Q2R pi) (axR r) (Q2R x0) tr half.
+Proof. exact real_axis_transfer. Qed.
+Theorem postprocess_frequency_transfer : forall (n rn : nat) (sh : bool) (k : nat), (1 <= n)%nat ->
+  Q2R (freq n rn sh k) = freq n rn sh k.
+Proof. exact freq_transfer. Qed.
+Theorem grid_coordinate_transfer : forall (a : @axis Q) (k : nat), Q2R (coord a k) = coord (axR a) k.
+Proof. exact coord_transfer. Qed.
